@@ -364,6 +364,7 @@ def _more(name):
 
 RULES = [
     ("C17.R5", "P1", r5_to_function_object, "conversion to a function object yields the function object"),
+    ("C17.R11", "P1", lambda ctx: r11_prepare_by_interpretation(ctx), "the metaclass merges inherited methods name by name (interpreted)"),
     ("C17.R4", "P1", r4_class_body_merge, "class-body definitions merge first; inherited names are collected"),
     ("C17.R1", "P1", r1_copy_before_mutate, "copy before mutate"),
     ("C17.R2", "P1", r2_self_threading_agrees, "self threading agrees"),
@@ -371,3 +372,106 @@ RULES = [
     ("C17.R6", "P1", _more("definition_merge_overrides"), "later mixins override earlier ones"),
     ("C17.R7", "P1", _more("conversion_leaves_argument_alone"), "conversion to a function object does not mark its argument"),
 ]
+
+
+def r11_prepare_by_interpretation(ctx):
+    """The metaclass's preparation of the class dictionary, interpreted on stand-in base classes: for every name, the
+    entry is a copy of the first base's function object extended by the later bases' `extend_super` ones, with exactly
+    the plain functions *of that name* registered into it; names without an extension get no entry."""
+    from ..metainterp import HostInterp, Raised, Record
+
+    repo = ctx.repo
+    mc = A.overload_meta(repo)
+    p = mc.methods["__prepare__"]
+    ns = A.cls_namespace(repo)
+    oc = A.function_class(repo)
+    ctx.touch(p)
+    log = []
+
+    class OvStub:
+        def __init__(self, label, extend=False, origin=None):
+            self.label, self.origin = label, origin
+            if extend:
+                self._extend_super = True
+            self.mixins, self.registered, self.renamed = [], [], None
+
+        def copy(self, mixins=(), **kw):
+            c = OvStub(self.label + "'", origin=self)
+            c.mixins = list(mixins)
+            return c
+
+        def register(self, fn, **kw):
+            if self.origin is None:
+                log.append(f"{self.label}.register(..) is applied to a base class's own function object")
+            self.registered.append(fn)
+            return self
+
+        def add_mixins(self, *m):
+            if self.origin is None:
+                log.append(f"{self.label}.add_mixins(..) is applied to a base class's own function object")
+            self.mixins.extend(m)
+
+        def rename(self, name, *a):
+            if self.origin is None:
+                log.append(f"{self.label}.rename(..) is applied to a base class's own function object")
+            self.renamed = name
+
+    class Plain:
+        def __init__(self, label):
+            self.label = label
+
+        def __repr__(self):
+            return self.label
+
+    class BaseStub:
+        def __init__(self, **attrs):
+            self.__dict__.update(attrs)
+
+        def __dir__(self):
+            return list(self.__dict__)
+
+    class DictStub(dict):
+        def __init__(self, bases=()):
+            super().__init__()
+
+    F1, F2, G1, G2, H1, H2, K2 = OvStub("B1.f"), OvStub("B2.f", True), OvStub("B1.g"), OvStub("B2.g", True), OvStub("B1.h"), OvStub("B2.h"), OvStub("B2.k", True)
+    pf, pg, pk = Plain("B3.f"), Plain("B3.g"), Plain("B1.k")
+    bases = (BaseStub(f=F1, g=G1, h=H1, k=pk), BaseStub(f=F2, g=G2, h=H2, k=K2), BaseStub(f=pf, g=pg))
+    genv = {oc.name: OvStub, ns.name: DictStub, "inspect": Record(isfunction=lambda x: isinstance(x, Plain))}
+    funcs = {n: g.node for n, g in p.module.funcs.items() if g.parent is None and g.cls is None and not g.node.decorator_list}
+    hi = HostInterp({}, Record(), {}, globals_env=genv, classes={}, functions=funcs)
+    hi.host_types = hi.host_types + (OvStub, Plain, BaseStub, DictStub)
+    try:
+        d = hi.call_function(p.node, [Record(kind="metaclass"), "Sub", bases], {}, {})
+    except Raised as r:
+        raise AnalysisError(f"{p.key}: raises {r.what} on consistent base classes")
+    problems = list(log)
+    if not isinstance(d, dict):
+        raise AnalysisError(f"{p.key}: does not return the class dictionary")
+    want = {"f": (F1, [F2], [pf]), "g": (G1, [G2], [pg])}
+    for name in sorted(set(d) | set(want)):
+        if name not in want:
+            problems.append(f"an entry is prepared for `{name}` although no later base extends it")
+            continue
+        if name not in d:
+            problems.append(f"no entry is prepared for `{name}` although a later base extends the first base's method")
+            continue
+        o = d[name]
+        o = getattr(o, "__ovld__", o)
+        first, mix, plain = want[name]
+        if not isinstance(o, OvStub) or o.origin is not first:
+            problems.append(f"the entry for `{name}` is not a copy of the first base's function object")
+            continue
+        if list(o.mixins) != mix:
+            problems.append(f"the entry for `{name}` is extended by {[m.label for m in o.mixins]}, the extending bases are {[m.label for m in mix]}")
+        if sorted(map(repr, o.registered)) != sorted(map(repr, plain)):
+            problems.append(f"the entry for `{name}` has {sorted(map(repr, o.registered))} registered, the plain functions of that name are {sorted(map(repr, plain))}")
+        if o.renamed != name:
+            problems.append(f"the entry for `{name}` is named {o.renamed!r}")
+    ctx.ob(
+        f"{p.key}:per-name-merge",
+        p.loc(),
+        "for every inherited name the prepared entry is a copy of the first base's function object, extended by the later bases' extend_super objects, with exactly that name's plain functions registered and named after it; other names get no entry (interpreted on three stand-in bases and four names)",
+        not problems,
+        "; ".join(problems[:2]) + ": a class inheriting from several bases gets methods of one name mixed into another, or changes its bases' dispatch",
+    )
